@@ -233,7 +233,12 @@ func TestNego(t *testing.T) {
 									nm, nd = r.Msize, r.Version == "9P2000.u"
 								}
 							}
-							lines = append(lines, Event{"act": "frame", "size": len(fr), "kind": wire.TypeName(fr[4]), "dialect": "", "count": -1, "data": 0})
+							// a refusal (Rerror) is still in the dialect in force before this Tversion
+							dl := ""
+							if fr[4] == wire.Rerror {
+								dl = dialectOf(fr)
+							}
+							lines = append(lines, Event{"act": "frame", "size": len(fr), "kind": wire.TypeName(fr[4]), "dialect": dl, "count": -1, "data": 0})
 						}
 						lines = append(lines, Event{"act": "version", "m": clampInt(m2), "v": v2, "obs": obs})
 						ch.Dotu = nd
@@ -248,6 +253,8 @@ func TestNego(t *testing.T) {
 							fr, ok := readOne(c, ch)
 							c.Wait()
 							if !ok {
+								// a well-formed frame within msize, in the dialect in force, ended the connection
+								lines = append(lines, Event{"act": "header", "s": len(wire.Encode(pm, nd)), "obs": "dropped"})
 								return
 							}
 							lines = append(lines, Event{"act": "frame", "size": len(fr), "kind": wire.TypeName(fr[4]), "dialect": dialectOf(fr), "count": -1, "data": 0})
